@@ -47,6 +47,7 @@ class Deep:
         self.started = False
         self.__starting = False
         self.__stop_wanted = False
+        self.__stopping = False
         # start and shutdown are one step each: a second start (or a shutdown) that arrives while the first is still in
         # progress waits for it, it does not run alongside
         self._lifecycle_lock = threading.RLock()
@@ -122,18 +123,26 @@ class Deep:
             # that is half started would leave the other half running: start() is told, and stops it when it is done)
             self.__stop_wanted = True
             return
-        if not self.started:
+        if not self.started or self.__stopping:
+            # (stopping: the thread that is inside shutdown() - a signal handler, a plugin's shutdown() calling us -
+            # finds
+            # the first shutdown in progress, which is carried through; a start() that follows it in there finds the
+            # agent still started and does nothing: when the outer call returns the agent is stopped)
             return
-        self.trigger_handler.shutdown()
-        self.task_handler.flush()
-        self.poll.shutdown()
-        for plugin in self.config.plugins:
-            try:
-                plugin.shutdown()
-            except BaseException:
-                deep.logging.exception("Failed to shutdown plugin %s", plugin)
-        deep.logging.info("Deep is shutdown.")
-        self.started = False
+        self.__stopping = True
+        try:
+            self.trigger_handler.shutdown()
+            self.task_handler.flush()
+            self.poll.shutdown()
+            for plugin in self.config.plugins:
+                try:
+                    plugin.shutdown()
+                except BaseException:
+                    deep.logging.exception("Failed to shutdown plugin %s", plugin)
+            deep.logging.info("Deep is shutdown.")
+        finally:
+            self.started = False
+            self.__stopping = False
 
     def register_tracepoint(self, path: str, line: int, args: Dict[str, str] = None,
                             watches: List[str] = None,
